@@ -37,7 +37,13 @@ def c19Equiv (j : J) : Option J := do
   pure (J.l [toJ (isEquivalentTo S1 S2), toJ (isEquivalentToOnComplete S1 S2),
              toJ (Spec.equivSpec 6 S1 S2), toJ (Spec.equivSpec 3 S1 S2), toJ (nickname S1)])
 
+/-- the preset schemes the model uses (scaled by 2 so that p = 1/2 is integral), in the order
+    unifying, pseudo, induced, extended, unifying p=1/2, induced p=1/2 -/
+def c19Presets (_ : J) : Option J :=
+  some (toJ [Scheme.scale 2 unifying, Scheme.scale 2 pseudo, Scheme.scale 2 induced, Scheme.scale 2 extended,
+             unifyingHalf, inducedHalf])
+
 def c19Ops : List (String × (J → Option J)) :=
-  [("c19.new", c19New), ("c19.mul", c19Mul), ("c19.equiv", c19Equiv)]
+  [("c19.new", c19New), ("c19.mul", c19Mul), ("c19.equiv", c19Equiv), ("c19.presets", c19Presets)]
 
 end Corankco.Driver
